@@ -513,10 +513,22 @@ impl<'de, R: Read<'de>> Parser<R> {
                         self.expect_ident(b"8")?;
                         Token::ByteVecOpen(b')')
                     }
-                    Some(b'b') => Token::Number(self.parse_radix_literal(2)?),
-                    Some(b'o') => Token::Number(self.parse_radix_literal(8)?),
-                    Some(b'd') => Token::Number(self.parse_radix_literal(10)?),
-                    Some(b'x') => Token::Number(self.parse_radix_literal(16)?),
+                    Some(b'b') => {
+                        let number = self.parse_radix_literal(2)?;
+                        self.number_token(number)?
+                    }
+                    Some(b'o') => {
+                        let number = self.parse_radix_literal(8)?;
+                        self.number_token(number)?
+                    }
+                    Some(b'd') => {
+                        let number = self.parse_radix_literal(10)?;
+                        self.number_token(number)?
+                    }
+                    Some(b'x') => {
+                        let number = self.parse_radix_literal(16)?;
+                        self.number_token(number)?
+                    }
                     Some(b'\\') => Token::Char(self.read.parse_r6rs_char(&mut self.scratch)?),
                     Some(b'%') if self.options.racket_hash_percent_symbols => {
                         Token::Symbol(self.parse_symbol_suffix("#%")?.into())
@@ -535,7 +547,8 @@ impl<'de, R: Read<'de>> Parser<R> {
                     let name = self.parse_sign_dot_symbol("-.")?;
                     self.symbol_token(name)
                 } else {
-                    Token::Number(self.parse_num_literal(10, false)?)
+                    let number = self.parse_num_literal(10, false)?;
+                    self.number_token(number)?
                 }
             }
             b'+' => {
@@ -548,7 +561,8 @@ impl<'de, R: Read<'de>> Parser<R> {
                     let name = self.parse_sign_dot_symbol("+.")?;
                     self.symbol_token(name)
                 } else {
-                    Token::Number(self.parse_num_literal(10, true)?)
+                    let number = self.parse_num_literal(10, true)?;
+                    self.number_token(number)?
                 }
             }
             b'0'..=b'9' => {
@@ -561,7 +575,8 @@ impl<'de, R: Read<'de>> Parser<R> {
                         _ => Token::Symbol(symbol.into()),
                     }
                 } else {
-                    Token::Number(self.parse_num_literal(10, true)?)
+                    let number = self.parse_num_literal(10, true)?;
+                    self.number_token(number)?
                 }
             }
             b'"' => {
@@ -838,6 +853,17 @@ impl<'de, R: Read<'de>> Parser<R> {
             Token::Keyword(name.into())
         } else {
             Token::Symbol(name.into())
+        }
+    }
+
+    // A numeric literal must extend to the next delimiter: `1x` or `-5/2` are not a number
+    // followed by something else.
+    fn number_token(&mut self, number: Number) -> Result<Token> {
+        let next = self.peek_or_null()?;
+        if next == 0 || is_delimiter(next) {
+            Ok(Token::Number(number))
+        } else {
+            Err(self.peek_error(ErrorCode::InvalidNumber))
         }
     }
 
